@@ -408,6 +408,15 @@ func rect(x0, y0, x1, y1 float64, ccw bool) []oracle.Pt {
 
 // rectilinear returns (holed shapes, rectangles) on the k-lattice: every outer rectangle with
 // every rectangle strictly inside it as a second contour, in the given orientation combos.
+// rectC: a rectangle with float corners, counter clockwise or clockwise.
+func rectC(x0, y0, x1, y1 float64, ccw bool) []oracle.Pt {
+	c := []oracle.Pt{{X: x0, Y: y0}, {X: x1, Y: y0}, {X: x1, Y: y1}, {X: x0, Y: y1}}
+	if !ccw {
+		c[1], c[3] = c[3], c[1]
+	}
+	return c
+}
+
 func rectilinear(k int, combos [][2]bool) (holed [][][]oracle.Pt, rects [][][]oracle.Pt) {
 	type rc struct{ x0, y0, x1, y1 int }
 	var all []rc
@@ -539,6 +548,20 @@ func families(tier string) []fw.Family {
 	apartShapes = append(apartShapes, c02.TwoHoles([][2]bool{{false, false}})[:40]...)
 	apartShapes = append(apartShapes, c02.Nestings(3)...)
 	apart := shift(apartShapes, 10, 0)
+	// operands of several contours of which only some touch the other operand (the bounding-box
+	// pre-filter sets those aside): two partially overlapping rectangles of either orientation, the
+	// first one touching / clear of the partner
+	var overlapPairs [][][]oracle.Pt
+	for _, x0 := range []float64{1, 3, 6} {
+		for _, dx := range [][2]float64{{1.5, 1.5}, {2, -1}, {-1, 2}} {
+			for o := 0; o < 4; o++ {
+				a := rectC(x0, 1, x0+3, 4, o&1 == 0)
+				b := rectC(x0+dx[0], 1+dx[1], x0+dx[0]+3, 4+dx[1], o&2 == 0)
+				overlapPairs = append(overlapPairs, [][]oracle.Pt{a, b}, [][]oracle.Pt{b, a})
+			}
+		}
+	}
+	loneP := [][][]oracle.Pt{{rectC(0, 0, 2, 2, true)}, {rectC(0, 0, 2, 2, false)}, {rectC(0, 0, 2, 2, true), rectC(12, 0, 13, 1, true)}, {{{X: 0, Y: 0}, {X: 2, Y: 0}, {X: 1, Y: 2.5}}}}
 	fewTris := tri3r[:24]
 	fs0 := hardCasesFamily()
 	var fs []fw.Family
@@ -547,6 +570,10 @@ func families(tier string) []fw.Family {
 		stagY = []float64{1, 2, 3, 4, 5, 6, 7, 9, 11, 13}
 	}
 	fs = append(fs, fs0, curvedFamily(), entryFamily(), staggeredFamily(stagY))
+	fs = append(fs,
+		pairFamily("4 small operands x two partially overlapping rectangles of either orientation, touching or clear of the partner", loneP, overlapPairs, 1, oracle.Pt{}, 1e-8, 1e-6, false),
+		pairFamily("two partially overlapping rectangles of either orientation x 4 small operands", overlapPairs, loneP, 1, oracle.Pt{}, 1e-8, 1e-6, false),
+	)
 	fs = append(fs,
 		pairFamily("tri(L3)/rot (first 24) x shapes with holes lying 10 to the right", fewTris, apart, 1, oracle.Pt{}, 1e-8, 1e-6, false),
 		pairFamily("shapes with holes lying 10 to the right x tri(L3)/rot (first 24)", apart, fewTris, 1, oracle.Pt{}, 1e-8, 1e-6, false),
